@@ -306,6 +306,14 @@ theorem class_level_list_is_written :
     Reach sharedDefault [1] 2 ∧ write sharedDefault 2 [3] 2 ≠ sharedDefault 2 :=
   ⟨shared_default_leaks.2.1, shared_default_leaks.2.2⟩
 
+/-- the `\\ifpdf` shape: a switch cell (object 2) that hangs off a module-level class (root 1) is reachable from that
+    class, so `\\pdftrue` executed by a document (holder 0, which reaches the cell only through the class) is a write
+    that the interpreter-wide state sees; a switch made by `\\newif` is a fresh object of the document's own context
+    (`twoDocs`: cell 2 under holder 0 only) and `unwritten_state_unchanged` applies to it -/
+theorem module_level_switch_is_shared :
+    Reach sharedDefault [1] 2 ∧ write sharedDefault 2 [3] 2 ≠ sharedDefault 2 :=
+  class_level_list_is_written
+
 end HoldersSec
 
 /-! ### file lookup (`TeX.kpsewhich`): the `TEXINPUTS` juggling and what a lookup may depend on -/
